@@ -1074,8 +1074,11 @@ def judge_deliveries(r, proto, delivered, items, faults_used, basic_broken=False
         elif d in want[:pos]:
             r.bad(f'{proto}/assembler/delivered-twice/after-{fault}', f'{str(d)[:120]} delivered again')
         else:
-            r.bad(f'{proto}/assembler/corrupt-delivery/after-{fault}',
-                  f'delivered {str(d[:-1])} with {len(d[-1])} payload bytes, which is none of the messages fed')
+            # (when even fault-free fragmented messages are mangled, fragments that slip through by
+            # accident are the same mechanism: one key, like the losses above)
+            r.bad(f'{proto}/assembler/corrupt-delivery/after-' + ('no-fault' if basic_broken else fault),
+                  f'delivered {str(d[:-1])} with {len(d[-1])} payload bytes, which is none of the messages fed '
+                  f'(fault: {fault})')
     if ok and pos < len(want):
         lost = want[pos]
         lost_item = next(it for it in items if it[1] and it[0] == lost)
